@@ -95,3 +95,10 @@ reg("C09", "sibpos", configs=("utf16",))
 reg("C12", "negstr")
 reg("C14", "extra", fn="check_utf16bytes", configs=("default", "utf16"), per_config=False)
 reg("C06", "bts", configs=("default", "pu"))
+reg("C02", "undo", fn="check_iddata")
+reg("C01", "undo", fn="check_iddata")
+reg("C03", "extra", fn="check_charsetpad")
+reg("C01", "extra", fn="check_charsetpad")
+reg("C16", "arm")
+reg("C16", "undo", fn="check_iddata")
+reg("C12", "extra", fn="check_crossmemb")
